@@ -94,6 +94,7 @@ def _valid_item(obj):
 
 
 _VALID_CACHE = {}
+_PENDING_POISON = []
 
 
 def _data_valid(data):
@@ -102,10 +103,14 @@ def _data_valid(data):
     hit = _VALID_CACHE.get(key)
     if hit is not None and hit[0] is data:
         return hit[1]
+    pending = poison_check()
     try:
         ok = _valid_item(_safe_loads(data))
     except BaseException:
         ok = False
+    poison_check()                       # undo whatever the harness' own trial load did
+    if pending:
+        _PENDING_POISON.extend(pending)  # caused earlier by the code under test: reported at run end
     if len(_VALID_CACHE) > 512:
         _VALID_CACHE.clear()
     _VALID_CACHE[key] = (data, ok)
@@ -1210,6 +1215,24 @@ class World:
         if new == data:
             self.count('corrupt.noop')
             return
+        if not op.get('force'):
+            # The harness must look at the damaged bytes to classify them, and looking (unpickling) can
+            # itself apply object state to parso's classes.  Whatever parso did before is settled first,
+            # whatever the trial load does is undone, and bytes that do this are not injected: like
+            # silent bit rot and memory bombs, no cache that unpickles unverified bytes can survive them
+            # (known finding F1; its witness plan injects such a file on purpose).
+            before = poison_check()
+            if before and self.violation is None:
+                self.violation = Violation('process-state-corrupted', 'process-state-corrupted',
+                                           'loading a cache file modified parso classes in this process: '
+                                           + ', '.join(before[:6]))
+            try:
+                _safe_loads(new)
+            except BaseException:
+                pass
+            if poison_check():
+                self.count('corrupt.skipped_poisoning')
+                return
         # a corruption that still unpickles to a cache item is not detectable by any implementation
         # that does not checksum its files; the property lists detectable damage only.
         if how != 'other-object':
@@ -1416,8 +1439,10 @@ def execute(plan, generate=False):
             w.versions.setdefault(f, []).append((n.data, n.mtime))
         w.now += plan['config'].get('warmup', 3.0)
         poison_check()
+        del _PENDING_POISON[:]
         v = w.run()
-        poisoned = poison_check()
+        poisoned = poison_check() + _PENDING_POISON
+        del _PENDING_POISON[:]
         if poisoned and v is None:
             v = Violation('process-state-corrupted', 'process-state-corrupted',
                           'loading a cache file modified parso classes in this process (every later parse '
